@@ -5,9 +5,11 @@ import (
 	"encoding/json"
 	"flag"
 	"fmt"
+	"go/types"
 	"os"
 	"path/filepath"
 	"sort"
+	"strings"
 	"time"
 
 	"verif/sa/core"
@@ -83,6 +85,52 @@ func main() {
 		}
 		fs.Parse(args)
 		os.Exit(selftest(only, *repo, *verif))
+	case "writers":
+		// sa writers <pkgpath> <Type> <field.path> : list writers of a field with provenance
+		prog, err := core.Load("/repo", nil, "")
+		if err != nil {
+			fmt.Fprintln(os.Stderr, err)
+			os.Exit(2)
+		}
+		pv := prog.Prov()
+		for _, tn := range strings.Split(os.Args[3], ",") {
+			n := prog.ExtNamed(os.Args[2], tn)
+			if n == nil {
+				n = prog.Named(os.Args[2], tn)
+			}
+			if n == nil {
+				fmt.Println("type not found", tn)
+				continue
+			}
+			var fields []string
+			if os.Args[4] == "*" {
+				st := n.Underlying().(*types.Struct)
+				for i := 0; i < st.NumFields(); i++ {
+					if !strings.HasPrefix(st.Field(i).Name(), "XXX_") {
+						fields = append(fields, st.Field(i).Name())
+					}
+				}
+			} else {
+				fields = strings.Split(os.Args[4], ",")
+			}
+			for _, fn := range fields {
+				f := core.Field(n, fn)
+				if f == nil {
+					fmt.Println("field not found", fn)
+					continue
+				}
+				for _, w := range prog.WritersOf(f) {
+					if strings.Contains(core.FuncName(w.Fn), "apicodec") || strings.Contains(core.FuncName(w.Fn), "mocktikv") {
+						continue
+					}
+					var d []string
+					if w.Val != nil {
+						d = pv.Desc(w.Val)
+					}
+					fmt.Printf("%s.%s  %s %s [%s] %v\n", tn, fn, prog.InstrPos(w.Instr), core.FuncName(w.Fn), w.Kind, d)
+				}
+			}
+		}
 	case "dump":
 		// sa dump <relpkg> <recv|-> <name> : print SSA of a function and its closures
 		prog, err := core.Load("/repo", nil, "")
